@@ -54,7 +54,7 @@ def open_connections(addr):
     return sorted(set(ufo.connection_serial for k, (ufo, uci) in list(cm.forwards.items()) if tuple(k[:2]) == tuple(addr[:2])))
 
 
-def session(script, addr=("10.0.0.1", 4000), process=None, max_polls=3, delay=None):
+def session(script, addr=("10.0.0.1", 4000), process=None, max_polls=3, delay=None, size=None):
     """Run one TCP session of the real server over `script`: a list of bytes (a received chunk), None (a receive
     timeout) and finally b'' (end of stream; appended if missing).  Returns the event log."""
     log = []
@@ -95,7 +95,7 @@ def session(script, addr=("10.0.0.1", 4000), process=None, max_polls=3, delay=No
         try:
             enip_main.connections.pop("%s_%d" % (addr[0].replace(".", "_"), addr[1]), None)
             enip_main.enip_srv_tcp(conn, addr, name="enip_%d" % addr[1], enip_process=wrapped, delay=delay,
-                                   server=cpppo.dotdict(control=control))
+                                   server=cpppo.dotdict(control=control), **({} if size is None else {"size": size}))
         except Exception as exc:
             log.append({"a": "exc", "t": type(exc).__name__})
         finally:
